@@ -24,11 +24,11 @@ def set_overlay(mapping):
         rk = os.path.realpath(k)
         exp[rk] = v
         # configure-made symlinks (mpn/add_n.c -> mpn/generic/add_n.c) name the same file
-        d = os.path.join(REPO, "mpn")
-        for f in os.listdir(d):
-            fp = os.path.join(d, f)
-            if os.path.islink(fp) and os.path.realpath(fp) == rk:
-                exp[fp] = v
+        for d in (os.path.join(REPO, "mpn"), REPO):
+            for f in os.listdir(d):
+                fp = os.path.join(d, f)
+                if os.path.islink(fp) and os.path.realpath(fp) == rk:
+                    exp[fp] = v
     OVERLAY.update(exp)
     _ir_cache.clear()
     import sa
